@@ -64,44 +64,86 @@ fn judge_read(route: &str, code: i32, r: Result<ShapeType, String>) -> Option<(S
 
 /// Record route: a one-record file (header type Point) whose record type is `code`.
 fn check_record(code: i32) -> Option<(String, String)> {
-    let mut b = codec::encode_header(50 + 4 + 10, 1, &[0.0; 8]);
+    // content of 4 bytes (the code alone: the layout of a null shape), 20 bytes (a point) and 36 bytes (a PointZ),
+    // read by iteration, by read() and through an index by read_nth_shape
+    for words in [2i32, 10, 18] {
+        for route in 0..3u8 {
+            if let Some(v) = check_record_at(code, words, route) {
+                return Some(v);
+            }
+        }
+    }
+    None
+}
+
+fn check_record_at(code: i32, words: i32, route: u8) -> Option<(String, String)> {
+    let mut b = codec::encode_header(50 + 4 + words, 1, &[0.0; 8]);
     b.extend(1i32.to_be_bytes());
-    b.extend(10i32.to_be_bytes());
+    b.extend(words.to_be_bytes());
     b.extend(code.to_le_bytes());
-    b.extend([0u8; 16]);
-    let mut r = match ShapeReader::new(Dev::quiet(b)) {
-        Ok(r) => r,
-        Err(e) => return Some(("record:open".into(), err_kind(&e))),
+    b.extend(vec![0u8; (words as usize) * 2 - 4]);
+    let rn = ["iter_shapes", "read", "read_nth_shape"][route as usize];
+    let first: Option<Result<shapefile::Shape, shapefile::Error>> = match route {
+        0 => {
+            let mut r = match ShapeReader::new(Dev::quiet(b)) {
+                Ok(r) => r,
+                Err(e) => return Some(("record:open".into(), err_kind(&e))),
+            };
+            let x = r.iter_shapes().next();
+            x
+        }
+        1 => match ShapeReader::new(Dev::quiet(b)) {
+            Ok(r) => match r.read() {
+                Ok(mut v) => {
+                    if v.len() == 1 {
+                        Some(Ok(v.remove(0)))
+                    } else {
+                        None
+                    }
+                }
+                Err(e) => Some(Err(e)),
+            },
+            Err(e) => return Some(("record:open".into(), err_kind(&e))),
+        },
+        _ => {
+            let mut shx = codec::encode_header(54, 1, &[0.0; 8]);
+            shx.extend(50i32.to_be_bytes());
+            shx.extend(words.to_be_bytes());
+            match ShapeReader::with_shx(Dev::quiet(b), Dev::quiet(shx)) {
+                Ok(mut r) => r.read_nth_shape(0),
+                Err(e) => return Some(("record:open".into(), err_kind(&e))),
+            }
+        }
     };
-    let first = r.iter_shapes().next();
+    let what = format!("code {} in a record of {} content bytes, {}", code, words * 2, rn);
     match (first, Ty::from_code(code)) {
         (Some(Err(e)), None) => {
             let e = err_kind(&e);
             if e == format!("InvalidShapeType({})", code) {
                 None
             } else {
-                Some(("record:wrong-error".into(), format!("code {}: {}", code, e)))
+                Some(("record:wrong-error".into(), format!("{}: {}", what, e)))
             }
         }
-        (Some(Ok(s)), None) => Some(("record:accepts-invalid-code".into(), format!("code {} read as {}", code, variant_ty(&s).name()))),
+        (Some(Ok(s)), None) => Some(("record:accepts-invalid-code".into(), format!("{}: read as {}", what, variant_ty(&s).name()))),
         (Some(Ok(s)), Some(w)) => {
-            // only Point (16 bytes) and Null decode here; others fail on size
-            if variant_ty(&s) == w || w == Ty::Null {
+            // only the types whose content has exactly this size decode here; others fail on size
+            if variant_ty(&s) == w {
                 None
             } else {
-                Some(("record:wrong-type".into(), format!("code {} read as {}", code, variant_ty(&s).name())))
+                Some(("record:wrong-type".into(), format!("{}: read as {}", what, variant_ty(&s).name())))
             }
         }
         (Some(Err(e)), Some(_)) => {
             let e = err_kind(&e);
             // a valid code with the wrong content size is a size / io error, never InvalidShapeType
             if e.starts_with("InvalidShapeType") {
-                Some(("record:rejects-valid-code".into(), format!("code {}: {}", code, e)))
+                Some(("record:rejects-valid-code".into(), format!("{}: {}", what, e)))
             } else {
                 None
             }
         }
-        (None, _) => Some(("record:no-item".into(), format!("code {}: iteration yielded nothing", code))),
+        (None, _) => Some(("record:no-item".into(), format!("{}: nothing returned", what))),
     }
 }
 
@@ -346,7 +388,7 @@ pub fn check(tier: Tier) -> i32 {
             tier,
             level: "model_checking",
             engine: "complete enumeration of the 2^32 code domain on the real ShapeType::from (and Header::read_from in the thorough tier), plus structured codes through header and record routes",
-            rule: "ShapeType::from(c) for all 2^32 values c against the literal ESRI table (counted in blocks of 2^20, so distinct == evaluations by construction for that part); header, one-record-file (generic and typed: read as the type whose code equals the low byte), and index-header (with_shx and from_path) routes over the structured set (|c|<=4096, all one- and two-bit patterns and complements, byte-swapped / shifted / negated valid codes, +-4096 around i32::MIN/MAX, valid codes +- m*256 for m up to 2^23) in quick and over all 2^32 headers in thorough; predicates and Display for the 14 types",
+            rule: "ShapeType::from(c) for all 2^32 values c against the literal ESRI table (counted in blocks of 2^20, so distinct == evaluations by construction for that part); header, one-record-file (generic: content of 4 / 20 / 36 bytes x {iter_shapes, read, read_nth_shape through an index}; typed: read as the type whose code equals the low byte), and index-header (with_shx and from_path) routes over the structured set (|c|<=4096, all one- and two-bit patterns and complements, byte-swapped / shifted / negated valid codes, +-4096 around i32::MIN/MAX, valid codes +- m*256 for m up to 2^23) in quick and over all 2^32 headers in thorough; predicates and Display for the 14 types",
             bounds: json!({"domain": "2^32 complete", "structured_codes": codes.len(), "header_route_complete": full_header}),
             exhaustive: true,
             assumptions: vec!["distinct_nontrivial for the 2^32 sweep is the size of the swept domain (each value visited exactly once by construction), not a hash count".into()],
